@@ -174,6 +174,21 @@ func main() {
 			}
 		}
 		fmt.Println("evals", evals)
+	case "show":
+		// debugging aid: run the first schedule of a flatten replay and print outcome + output
+		installLoader()
+		log.SetOutput(io.Discard)
+		b, err := os.ReadFile(os.Args[2])
+		if err != nil {
+			panic(err)
+		}
+		var c Case
+		if err := json.Unmarshal(b, &c); err != nil {
+			panic(err)
+		}
+		o := runFlatten(&c, c.Schedules[0], c.Faults, nil)
+		fmt.Println("status:", o.status(), "loads:", o.Loads)
+		fmt.Println(string(o.Out))
 	case "selfcheck":
 		if err := checkGetterDrivers(); err != nil {
 			fmt.Fprintln(os.Stderr, err)
